@@ -108,3 +108,21 @@ pub fn yp(label: &'static str) {
     s.arrive(id, label);
   }
 }
+
+/// Yield point in front of `m.lock()`. A scheduled thread stops at `label`; when it is granted a
+/// step while another thread holds the mutex it cannot make progress: it stops again at
+/// `blocked_label` (by convention `label` followed by '!') and waits for the next grant. When it
+/// returns, the mutex is free, and because scheduling is cooperative it stays free until the
+/// caller's own `lock()`.
+pub fn yp_lock<T>(label: &'static str, blocked_label: &'static str, m: &Mutex<T>) {
+  let me = ME.with(|m| m.borrow().clone());
+  if let Some((id, s)) = me {
+    s.arrive(id, label);
+    loop {
+      match m.try_lock() {
+        Err(std::sync::TryLockError::WouldBlock) => s.arrive(id, blocked_label),
+        _ => break,
+      }
+    }
+  }
+}
